@@ -49,6 +49,7 @@ class _Cache:
 
 class ClassGetItem(Contract):
     target = f"{DM}.__class_getitem__"
+    model_path = ("pandera.api.dataframe.model", "DataFrameModel")
     check_frame = False
     split = {"alias": ["none", "text_alias_that_is_another_fields_name", "non_text_alias"]}
     sym_globals = {"pandera.api.dataframe.model:GENERIC_SCHEMA_CACHE": T.Lazy(lambda n: _Cache())}
@@ -57,7 +58,9 @@ class ClassGetItem(Contract):
         import builtins
         import copy
 
-        from pandera.api.dataframe.model import DataFrameModel
+        import importlib
+
+        DataFrameModel = getattr(importlib.import_module(self.model_path[0]), self.model_path[1])
 
         I.models[id(DataFrameModel.__dict__["_collect_fields"].__func__)] = lambda I_, cls: cur().ghost["fields"]
         I.models[id(copy.deepcopy)] = lambda I_, x, memo=None: ("copy_of", x)
@@ -93,8 +96,9 @@ class ClassGetItem(Contract):
         dict.__setitem__(fields, fa.attrs["name"], (annot(TV), fa))  # a: Series[T]   (generic)
         dict.__setitem__(fields, fb.attrs["name"], (annot(int), fb))  # b: Series[int] (not generic)
         cur().ghost.update(fa=fa, fb=fb, fields=fields)
-        from pandera.api.dataframe.model import DataFrameModel
+        import importlib
 
+        DataFrameModel = getattr(importlib.import_module(self.model_path[0]), self.model_path[1])
         cls = Obj(DataFrameModel, "cls", pre=True, fields={})  # (stands for the generic model CLASS: classmethods resolve on it)
         cls.attrs.update(__parameters__=(TV,), __name__="M")
         cls.attrs0.update(cls.attrs)
@@ -156,4 +160,13 @@ class ClassGetItem(Contract):
         return thunk
 
 
-CONTRACTS = [ClassGetItem]
+class PysparkClassGetItem(ClassGetItem):
+    """the pyspark model has its own copy of __class_getitem__ (and of the cache): the same contract"""
+
+    target = "pandera.api.pyspark.model:DataFrameModel.__class_getitem__"
+    model_path = ("pandera.api.pyspark.model", "DataFrameModel")
+    sym_globals = {"pandera.api.pyspark.model:GENERIC_SCHEMA_CACHE": T.Lazy(lambda n: _Cache())}
+    concretize = None
+
+
+CONTRACTS = [ClassGetItem, PysparkClassGetItem]
